@@ -8,7 +8,7 @@ TRUSTED = ["the exception class each Python primitive raises (int(), dict lookup
 ASSUMPTIONS = ["replies are at most 1024 bytes and arrive one per read", "arguments are inside every encoder's accepted domain: what happens to rejected arguments is C02's subject"]
 RULE = ("for each of the three state queries: empty reply, every prefix length of a valid reply, random replies of 1..1024 bytes and "
         "single-byte corruptions, at the login step and at the state step; every operation of both APIs with an empty login reply "
-        "and with an empty command reply; non-trivial = distinct (operation, reply script) pairs with a truncated, empty or "
+        "and with an empty command reply; operations with faulty replies through `async with` on loopback TCP; non-trivial = distinct (operation, reply script) pairs with a truncated, empty or "
         "corrupted reply")
 REQUIREMENT = ("state query: outcome is a parsed response or RuntimeError, never another exception; a generic response is successful "
                "iff the reply is non-empty; empty login reply: state queries and all type-2 operations raise RuntimeError having "
@@ -120,6 +120,47 @@ def run_sequences(out, rnd, n):
                      impl_spec=[judge(c, t) for c, t in zip(cases, it)])
 
 
+def run_context_form(out, rnd, n):
+    """the documented usage: `async with Api(...) as api: await api.<operation>()` against a scripted device on loopback TCP.
+    What the operation raises must come out of the block; what it returns must be what the block sees"""
+    import asyncio
+    from aioswitcher.api import SwitcherType1Api, SwitcherType2Api
+    cs = [c for c in oc.mixed_cases(rnd, n, reply_mode="faulty", accepted_args=True) if c["kind"] != 12]
+    async def go():
+        ip = world.loopback_ip(9); devs = {False: world.FakeDevice(ip, 9957), True: world.FakeDevice(ip, 10000)}
+        for d in devs.values(): await d.listen(True)
+        res = []
+        try:
+            for c in cs:
+                t2 = c["kind"] in world.TYPE2_KINDS; dev = devs[t2]; dev.log.clear()
+                dev.script[:] = [bytes.fromhex(r) for r in c["replies"]]; dev.policy = lambda n, d: b""
+                seen = "block ended without a result"; sent = []
+                try:
+                    async with (SwitcherType2Api if t2 else SwitcherType1Api)(ip, c["id"], c["key"]) as api:
+                        w = api._writer; orig = w.write; sent = []
+                        w.write = lambda b, orig=orig, sent=sent: (sent.append(bytes(b)), orig(b))[1]        # frames as the client writes them
+                        r = await asyncio.wait_for(world.call_op(api, c["kind"], c["args"]), 20)
+                        seen = world.show_response(c["kind"], r)
+                except asyncio.TimeoutError: seen = "exc:NeverReturned"
+                except Exception as e: seen = "exc:" + world.exc_name(e)
+                for _ in range(3): await asyncio.sleep(0)
+                res.append("".join(d.hex() + "|" for d in sent) + seen)
+        finally:
+            for d in devs.values(): await d.listen(False)
+        return res
+    it = asyncio.run(go())
+    io = [view(t) for t in it]
+    # over TCP an empty reply is the end of the stream: later reads see end-of-stream too, which the scripted model expresses as empty replies
+    mcs = []
+    for c in cs:
+        r = list(c["replies"]); k = next((i for i, x in enumerate(r) if x == ""), None)
+        mcs.append(dict(c, replies=r if k is None else r[:k] + [""] * (len(r) - k)))
+    mo = [view(t) for t in lib.run_model([world.model_line(c) for c in mcs])]
+    lib.differential(out, "async-with-over-tcp", mcs, io, mo, ["ok"] * len(mcs), oc.describe, nontrivial=lambda c: True,
+                     sample=lambda c: oc.describe(c)[:300], classify=lambda c, i: "with/" + world.KIND_NAMES[c["kind"]] + " / " + i,
+                     impl_spec=[judge(c, t) for c, t in zip(mcs, it)])
+
+
 def run(tier, rnd, out):
     corpus = lib.load_corpus("C09")
     if corpus: run_stream(out, "corpus", corpus)
@@ -127,6 +168,7 @@ def run(tier, rnd, out):
     cs = oc.mixed_cases(rnd, 15 if tier == "quick" else 400, reply_mode="faulty", accepted_args=True)
     run_stream(out, "random-faults", cs)
     run_sequences(out, rnd, 120 if tier == "quick" else 2000)
+    run_context_form(out, rnd, 4 if tier == "quick" else 60)
 
 
 def replay(rp, out): run_stream(out, rp.get("stream", "replay"), [rp["input"]])
